@@ -174,8 +174,18 @@ theorem offline_equiv {α : Type} (bs mm : Nat) (hmm : 2 ≤ mm) (docs : List α
     · intro hle; have := i5 hle; rw [b, hw] at this; simpa [OffResult.abs, qdocs] using this
   | _ :: _ :: _ => rw [hw] at i2; simp at i2
 
-/-- PINNED TREE: with no document at all `Close` panics (`s.segIDs[0]`), for every batch size -/
-theorem offline_empty_panics {α : Type} (bs mm : Nat) : offlineRun bs mm ([] : List α) = .panic := rfl
+/-- with no document at all `Close` records an empty snapshot (epoch 0, no segment, no segment file) -/
+theorem offline_empty_ok {α : Type} (bs mm : Nat) :
+    offlineRun bs mm ([] : List α) = .ok { snapshotEpoch := 0, segments := [], segFiles := [] } := rfl
+
+/-- **offline_equiv for every corpus, the empty one included**: the run ends normally and the result
+holds exactly the inserted documents (as a multiset). -/
+theorem offline_equiv_all {α : Type} (bs mm : Nat) (hmm : 2 ≤ mm) (docs : List α) :
+    ∃ r, offlineRun bs mm docs = .ok r ∧ r.abs.Perm docs := by
+  by_cases hne : docs = []
+  · subst hne; exact ⟨_, offline_empty_ok bs mm, by simp [OffResult.abs]⟩
+  · obtain ⟨r, h1, h2, _⟩ := offline_equiv bs mm hmm docs hne
+    exact ⟨r, h1, h2⟩
 
 /-- the statement that covers the empty corpus as well: every run either ends with the inserted
 documents, or the corpus is empty and the outcome is whatever `Close` does without a segment
